@@ -24,7 +24,7 @@ LiveAgree ==
                          /\ IdsR(Line.conns) = {c \in ConnIds : cn'[c] = "live"} )) )
 EndOf(k, a, b) == [k |-> k, a |-> a, b |-> b]
 Act == CASE o[1] = 1  -> NewShape(o[2], <<o[3], o[4], o[5], o[6]>>)
-         [] o[1] = 2  -> NewPin(o[2], <<o[3], o[4], o[5], o[7], o[8], o[9]>>)
+         [] o[1] = 2  -> NewPin(o[2], <<o[3], o[4], o[5], o[7], o[8], o[9], o[6]>>)
          [] o[1] = 3  -> NewJunction(o[2], <<o[3], o[4]>>)
          [] o[1] = 4  -> NewConn(o[2], EndOf(o[3], o[4], o[5]), EndOf(o[6], o[7], o[8]))
          [] o[1] = 5  -> SetCheckpoint(o[2], <<o[4], o[5]>>)
